@@ -68,6 +68,13 @@ inductive Op where
   | recMap | recPermute | recMultiplyDisjoint | contMake
   | gridMap | gridApply2 | gridResize | treeCtor | treePushValue | treePushTree | treeRelease | treeMap
   | optsFlag | optsOption | parseSequence | parseRepetition
+  -- extension round 1: tuple / array / record
+  | tupInvoke | tupApply2 | tupFromArray | tupMake2 | tupInit | arrApply2 | arrInit | arrMake2 | recCtor2 | recInit
+  -- optional / either / variant
+  | optMake | optCtor | optAssign | optToException | optMakeIf | optMaybe | optMaybeVoid | optMaybeMulti2 | optMaybeVoidMulti2
+  | optCopyValue
+  | eithMakeSuccess | eithMakeFailure | eithCtor | eithConstruct | eithTryCall | eithToException | eithErrorFromOptional
+  | eithSequenceError | eithLoop | varCtor
   deriving DecidableEq, Repr, Inhabited
 
 /-- Arguments (value category, element identities in container order) and the operation's
@@ -104,6 +111,19 @@ def whole (rv : Bool) (a n : Nat) (d : Dest) : List Instr :=
 
 /-- the user's function (or the library) reads every element -/
 def readAll (a n : Nat) : List Instr := (List.range n).map fun i => .read a i
+
+/-- the user's function gets element `i` of argument `a` as `move_if_rvalue<Arg>(element)`: an rvalue is moved through, an lvalue derived from -/
+def callAt (rv : Bool) (a i : Nat) (d : Dest) : Instr := if rv then .xfer a i .move d else .derive a i 1 d
+
+/-- a function of two arguments is called position by position with `(move_if_rvalue<A0>(x_i), move_if_rvalue<A1>(y_i))`;
+the harness function hands both on (`both`: the result holds what it got from the first, then from the second argument) -/
+def zipCall2 (rv0 rv1 : Bool) (n : Nat) (d : Dest) : List Instr :=
+  (List.range n).flatMap fun i => [callAt rv0 0 i d, callAt rv1 1 i d]
+
+/-- what the harness function `sink_second` does with its second argument: an rvalue is moved into a local that dies, an lvalue is read -/
+def sinkAt (rv : Bool) (a i : Nat) : Instr := if rv then .xfer a i .move .drop else .read a i
+
+def freshRange (n : Nat) (d : Dest) : List Instr := (List.range n).map fun j => .fresh (1000 + j) d
 
 /-- the listed elements of `a`, in this order (`record::permute`) -/
 def gather (a : Nat) (idx : List Nat) (m : Mode) (d : Dest) : List Instr := idx.map fun i => .xfer a i m d
@@ -161,8 +181,8 @@ def prog (o : Op) (inp : Input) : List Instr :=
   | .optCombine =>
     if n 0 = 0 then xferAll 1 (n 1) (fwd (rv 1)) .res
     else if n 1 = 0 then xferAll 0 (n 0) (fwd (rv 0)) .res
-    else readAll 1 (n 1) ++ callAll (rv 0) 0 (n 0) .res
-  | .optApply2 => if n 0 = 0 ∨ n 1 = 0 then [] else readAll 1 (n 1) ++ callAll (rv 0) 0 (n 0) .res
+    else [sinkAt (rv 1) 1 0, callAt (rv 0) 0 0 .res]
+  | .optApply2 => if n 0 = 0 ∨ n 1 = 0 then [] else zipCall2 (rv 0) (rv 1) 1 .res
   | .optSequence =>
     -- par = presence mask of the entries; the argument lists the elements of the present ones
     if inp.par.all (· == 1) then xferAll 0 (n 0) (fwd (rv 0)) .res else []
@@ -185,7 +205,7 @@ def prog (o : Op) (inp : Input) : List Instr :=
   | .eithApply2 =>
     -- par = [side of the first, side of the second]
     if par0 = 1 then
-      (if par1 = 1 then readAll 1 (n 1) ++ callAll (rv 0) 0 (n 0) .res else xferAll 1 (n 1) (fwd (rv 1)) .res)
+      (if par1 = 1 then zipCall2 (rv 0) (rv 1) 1 .res else xferAll 1 (n 1) (fwd (rv 1)) .res)
     else
       xferAll 0 (n 0) (fwd (rv 0)) .res ++ (if par1 = 1 then [] else xferAll 1 (n 1) (fwd (rv 1)) .drop)
   | .eithSequence =>
@@ -200,7 +220,7 @@ def prog (o : Op) (inp : Input) : List Instr :=
     | none => (List.range inp.par.length).map fun j => .fresh (1000 + j) .res
   -- variant<T, w1<T>, w2<T>>: the argument is the element held, par0 the alternative
   | .varMatch | .varApply => callAll (rv 0) 0 (n 0) .res
-  | .varApply2 => readAll 1 (n 1) ++ callAll (rv 0) 0 (n 0) .res
+  | .varApply2 => zipCall2 (rv 0) (rv 1) 1 .res
   | .varToOptional => if par0 = par1 then xferAll 0 (n 0) (fwd (rv 0)) .res else []
   -- tuples, arrays, records: one element object per position
   | .tupMap | .arrMap | .recMap => callAll (rv 0) 0 (n 0) .res
@@ -213,7 +233,7 @@ def prog (o : Op) (inp : Input) : List Instr :=
   -- grids: par = [w, h, …] (storage order: x fastest)
   | .gridMap => callAll (rv 0) 0 (n 0) .res
   | .gridApply2 =>
-    if par0 = par2 ∧ par1 = par3 then readAll 1 (n 1) ++ callAll (rv 0) 0 (n 0) .res else []
+    if par0 = par2 ∧ par1 = par3 then zipCall2 (rv 0) (rv 1) (n 0) .res else []
   | .gridResize => (List.range (par2 * par3)).map (gridCell (rv 0) par0 par1 par2)
   -- trees: the argument is the root value followed by the (leaf) children
   | .treeCtor => xferAll 0 (n 0) (fwd (rv 0)) .res
@@ -225,6 +245,40 @@ def prog (o : Op) (inp : Input) : List Instr :=
   | .parseSequence =>
     if 2 ≤ par0 then [.fresh 1000 .res, .fresh 1001 .res] else if par0 = 1 then [.fresh 1000 .drop] else []
   | .parseRepetition => (List.range par0).map fun j => .fresh (1000 + j) .res
+  -- tuple::invoke: `std::apply(f, move_if_rvalue<Tuple>(t.impl()))` - every element reaches the function with the tuple's category
+  | .tupInvoke => callAll (rv 0) 0 (n 0) .res
+  -- tuple::apply: `tuple::get` has no rvalue overload, so the function gets an lvalue (`T &` / `T const &`) for every category
+  | .tupApply2 => zipCall2 false false (n 0) .res
+  | .arrApply2 => zipCall2 (rv 0) (rv 1) (n 0) .res
+  | .tupFromArray => xferAll 0 (n 0) (fwd (rv 0)) .res
+  -- tuple::make / array::make / the record constructor with two (scalar) arguments, each forwarded
+  | .tupMake2 | .arrMake2 | .recCtor2 => xferAll 0 (n 0) (fwd (rv 0)) .res ++ xferAll 1 (n 1) (fwd (rv 1)) .res
+  -- init: every element is made by the user's function
+  | .tupInit | .arrInit | .recInit => freshRange par0 .res
+  -- optional
+  | .optMake | .optCtor | .optCopyValue => xferAll 0 (n 0) (fwd (rv 0)) .res
+  | .optAssign =>
+    -- `_optional = optional(std::forward<Arg>(_arg))`: the old content is overwritten, the new one moved in
+    (if n 0 = 0 then [] else [.pop 0 0 .drop]) ++ [.xfer 1 0 .move (.arg 0)]
+  | .optToException => xferAll 0 (n 0) (fwd (rv 0)) .res
+  | .optMakeIf => if par0 = 1 then [.fresh 1000 .res] else []
+  | .optMaybe => if n 0 = 0 then [.fresh 1000 .res] else callAll (rv 0) 0 (n 0) .res
+  | .optMaybeVoid => callAll (rv 0) 0 (n 0) .res
+  | .optMaybeMulti2 => if n 0 = 0 ∨ n 1 = 0 then [.fresh 1000 .res] else zipCall2 (rv 0) (rv 1) 1 .res
+  | .optMaybeVoidMulti2 => if n 0 = 0 ∨ n 1 = 0 then [] else zipCall2 (rv 0) (rv 1) 1 .res
+  -- either / variant constructors
+  | .eithMakeSuccess | .eithMakeFailure | .eithCtor | .varCtor => xferAll 0 (n 0) (fwd (rv 0)) .res
+  | .eithConstruct | .eithTryCall => if par0 = 1 then [.fresh 1000 .res] else [.fresh 1001 .res]
+  -- to_exception: the success is returned, the failure handed to the user's `make_exception` (which keeps it in the exception)
+  | .eithToException => if par0 = 1 then xferAll 0 (n 0) (fwd (rv 0)) .res else callAll (rv 0) 0 (n 0) .res
+  | .eithErrorFromOptional => xferAll 0 (n 0) (fwd (rv 0)) .res
+  | .eithSequenceError =>
+    -- par = what the user's function answers per element (1 = no_error after reading it, 0 = a failure that takes the element)
+    match inp.par.findIdx? (· == 0) with
+    | some k => readAll 0 k ++ [callAt (rv 0) 0 k .res]
+    | none => readAll 0 (n 0)
+  -- either::loop: par0 successes (each moved into the user's `loop` function, which keeps them), then the failure
+  | .eithLoop => freshRange (par0 + 1) .res
 
 def jn (b : Bool) : String := if b then "J" else "N"
 def sf (b : Bool) : String := if b then "S" else "F"
@@ -260,6 +314,17 @@ def tag (o : Op) (inp : Input) : String :=
   | .arrFromRange => jn (inp.par.headD 0 == inp.size 0)
   | .parseSequence => sf (2 ≤ inp.par.headD 0)
   | .parseRepetition => "S"
+  | .optMake | .optCtor => "J"
+  | .optCopyValue | .eithErrorFromOptional => jn (inp.size 0 == 1)
+  | .optAssign => match inp.ids 1 with | x :: _ => s!"R{x}" | [] => "R?"
+  | .optToException => if inp.size 0 == 1 then "-" else "exc"
+  | .optMakeIf => jn (inp.par.headD 0 == 1)
+  | .eithMakeSuccess => "S"
+  | .eithMakeFailure => "F"
+  | .eithCtor | .eithConstruct | .eithTryCall => sf (inp.par.headD 0 == 1)
+  | .eithToException => if inp.par.headD 0 == 1 then "-" else "exc"
+  | .eithSequenceError => sf (inp.par.all (· == 1))
+  | .varCtor => s!"A{inp.par.headD 0}"
   | _ => "-"
 
 /-! ## well-formed inputs -/
@@ -330,7 +395,7 @@ def shapeOk (o : Op) (inp : Input) : Bool :=
   | .tupMap | .arrMap => inp.args.length == 1 && catIn inp 0 anyCat && inp.par.isEmpty
   | .recMap => inp.args.length == 1 && catIn inp 0 [.rv] && inp.par.isEmpty
   | .tupPushBack => inp.args.length == 2 && catIn inp 0 anyCat && catIn inp 1 anyCat && n 1 == 1 && inp.par.isEmpty
-  | .tupConcat => inp.args.length == 2 && catIn inp 0 [.rv] && catIn inp 1 [.rv] && inp.par.isEmpty
+  | .tupConcat => inp.args.length == 2 && catIn inp 0 anyCat && catIn inp 1 anyCat && inp.par.isEmpty
   | .arrPushBack => inp.args.length == 2 && catIn inp 0 anyCat && catIn inp 1 anyCat && n 1 == 1 && inp.par.isEmpty
   | .arrJoin2 => inp.args.length == 2 && catIn inp 0 anyCat && catIn inp 1 anyCat && inp.par.isEmpty
   | .arrJoin3 => inp.args.length == 3 && catIn inp 0 anyCat && catIn inp 1 anyCat && catIn inp 2 anyCat && inp.par.isEmpty
@@ -355,6 +420,27 @@ def shapeOk (o : Op) (inp : Input) : Bool :=
   | .optsOption => inp.args.length == 1 && catIn inp 0 [.rv] && n 0 ≤ 1 && inp.par.isEmpty
   | .parseSequence => inp.args.length == 0 && inp.par.length == 1 && inp.par.headD 0 ≤ 2
   | .parseRepetition => inp.args.length == 0 && inp.par.length == 1
+  | .tupInvoke | .tupFromArray => inp.args.length == 1 && catIn inp 0 anyCat && inp.par.isEmpty
+  | .tupApply2 => inp.args.length == 2 && catIn inp 0 [.rv] && catIn inp 1 anyCat && n 0 == n 1 && inp.par.isEmpty
+  | .arrApply2 => inp.args.length == 2 && catIn inp 0 anyCat && catIn inp 1 anyCat && n 0 == n 1 && inp.par.isEmpty
+  | .tupMake2 | .arrMake2 => inp.args.length == 2 && catIn inp 0 anyCat && catIn inp 1 anyCat && n 0 == 1 && n 1 == 1 && inp.par.isEmpty
+  | .recCtor2 =>
+    -- par = [order]: 0 = the initializers are given in label order, 1 = swapped
+    inp.args.length == 2 && catIn inp 0 anyCat && catIn inp 1 anyCat && n 0 == 1 && n 1 == 1 && inp.par.length == 1 && inp.par.headD 0 ≤ 1
+  | .tupInit | .arrInit | .recInit | .eithLoop => inp.args.length == 0 && inp.par.length == 1
+  | .optMake | .optCtor => inp.args.length == 1 && catIn inp 0 anyCat && n 0 == 1 && inp.par.isEmpty
+  | .optCopyValue => inp.args.length == 1 && catIn inp 0 [.lv, .cr] && n 0 ≤ 1 && inp.par.isEmpty
+  | .optAssign => inp.args.length == 2 && catIn inp 0 [.io] && catIn inp 1 [.rv] && n 0 ≤ 1 && n 1 == 1 && inp.par.isEmpty
+  | .optToException | .optMaybe | .optMaybeVoid | .eithErrorFromOptional =>
+    inp.args.length == 1 && catIn inp 0 anyCat && n 0 ≤ 1 && inp.par.isEmpty
+  | .optMakeIf | .eithConstruct | .eithTryCall => inp.args.length == 0 && inp.par.length == 1 && inp.par.headD 0 ≤ 1
+  | .optMaybeMulti2 | .optMaybeVoidMulti2 =>
+    inp.args.length == 2 && catIn inp 0 anyCat && catIn inp 1 anyCat && n 0 ≤ 1 && n 1 ≤ 1 && inp.par.isEmpty
+  | .eithMakeSuccess | .eithMakeFailure => inp.args.length == 1 && catIn inp 0 anyCat && n 0 == 1 && inp.par.isEmpty
+  | .eithCtor | .eithToException =>
+    inp.args.length == 1 && catIn inp 0 anyCat && n 0 == 1 && inp.par.length == 1 && inp.par.headD 0 ≤ 1
+  | .varCtor => inp.args.length == 1 && catIn inp 0 anyCat && n 0 == 1 && inp.par.length == 1 && inp.par.headD 0 ≤ 2
+  | .eithSequenceError => inp.args.length == 1 && catIn inp 0 anyCat && inp.par.length == n 0 && inp.par.all (· ≤ 1)
 
 def wf (o : Op) (inp : Input) : Bool := idsOk inp && shapeOk o inp
 
@@ -367,7 +453,13 @@ def keeps (o : Op) (inp : Input) (a : Nat) : Bool :=
   | .reverse | .join2 | .join3 | .tupPushBack | .tupConcat | .arrPushBack | .arrJoin2 | .arrJoin3
   | .recPermute | .recMultiplyDisjoint | .contMake | .optsFlag | .optsOption | .treeCtor
   | .optJoin | .optCat | .optToContainer | .optFrom | .optAlt | .eithJoin | .eithMap | .eithMapFailure | .eithFromOptional
-  | .eithBind | .moveIf | .moveIfRvalue => true
+  | .eithBind | .moveIf | .moveIfRvalue
+  | .tupInvoke | .tupFromArray | .tupMake2 | .arrMake2 | .recCtor2 | .arrApply2
+  | .optMake | .optCtor | .optToException | .optMaybe | .optMaybeVoid
+  | .eithMakeSuccess | .eithMakeFailure | .eithCtor | .eithToException | .eithErrorFromOptional | .varCtor
+  | .varApply2 => true
+  | .optApply2 | .optMaybeMulti2 | .optMaybeVoidMulti2 => inp.size 0 == 1 && inp.size 1 == 1
+  | .gridApply2 => inp.par.headD 0 == (inp.par.drop 2).headD 0 && (inp.par.drop 1).headD 0 == (inp.par.drop 3).headD 0
   | .fold | .foldBreak => a == 1
   | .optSequence | .eithSequence => inp.par.all (· == 1)
   | .arrFromRange => inp.par.headD 0 == inp.size 0
@@ -377,7 +469,7 @@ def keeps (o : Op) (inp : Input) (a : Nat) : Bool :=
 /-- the operations whose program destroys values it took or made (a second failure in `either::apply`, the failures before the
 first success in `first_success`, a half-parsed sequence, the emptied `move_range`) -/
 def drops : Op → Bool
-  | .eithApply2 | .eithFirstSuccess | .parseSequence | .moveRangeMap => true
+  | .eithApply2 | .eithFirstSuccess | .parseSequence | .moveRangeMap | .optCombine | .optAssign => true
   | _ => false
 
 /-! ## the programs of three repaired defects, kept for the refuted examples in Props/C05.lean -/
@@ -403,7 +495,11 @@ def Op.all : List Op :=
    .varMatch, .varApply, .varApply2, .varToOptional, .tupMap, .tupPushBack, .tupConcat, .arrMap, .arrPushBack, .arrJoin2, .arrJoin3,
    .arrFromRange, .recMap, .recPermute, .recMultiplyDisjoint, .contMake,
    .gridMap, .gridApply2, .gridResize, .treeCtor, .treePushValue, .treePushTree, .treeRelease, .treeMap,
-   .optsFlag, .optsOption, .parseSequence, .parseRepetition]
+   .optsFlag, .optsOption, .parseSequence, .parseRepetition,
+   .tupInvoke, .tupApply2, .tupFromArray, .tupMake2, .tupInit, .arrApply2, .arrInit, .arrMake2, .recCtor2, .recInit,
+   .optMake, .optCtor, .optAssign, .optToException, .optMakeIf, .optMaybe, .optMaybeVoid, .optMaybeMulti2, .optMaybeVoidMulti2,
+   .optCopyValue, .eithMakeSuccess, .eithMakeFailure, .eithCtor, .eithConstruct, .eithTryCall, .eithToException,
+   .eithErrorFromOptional, .eithSequenceError, .eithLoop, .varCtor]
 
 def Op.name : Op → String
   | .algMap => "algmap" | .fold => "fold" | .foldBreak => "foldbrk" | .mapConcat => "mapcat" | .mapOptional => "mapopt"
@@ -424,5 +520,14 @@ def Op.name : Op → String
   | .treeCtor => "treector" | .treePushValue => "treepushval" | .treePushTree => "treepushtree" | .treeRelease => "treerelease"
   | .treeMap => "treemap" | .optsFlag => "optsflag" | .optsOption => "optsoption"
   | .parseSequence => "parseseq" | .parseRepetition => "parserep"
+  | .tupInvoke => "tupinvoke" | .tupApply2 => "tupapply2" | .tupFromArray => "tupfromarr" | .tupMake2 => "tupmake2"
+  | .tupInit => "tupinit" | .arrApply2 => "arrapply2" | .arrInit => "arrinit" | .arrMake2 => "arrmake2"
+  | .recCtor2 => "recctor2" | .recInit => "recinit"
+  | .optMake => "optmake" | .optCtor => "optctor" | .optAssign => "optassign" | .optToException => "opttoexc"
+  | .optMakeIf => "optmakeif" | .optMaybe => "optmaybe" | .optMaybeVoid => "optmaybevoid" | .optMaybeMulti2 => "optmaybemulti2"
+  | .optMaybeVoidMulti2 => "optmaybevoidmulti2" | .optCopyValue => "optcopyvalue"
+  | .eithMakeSuccess => "eithmakesucc" | .eithMakeFailure => "eithmakefail" | .eithCtor => "eithctor"
+  | .eithConstruct => "eithconstruct" | .eithTryCall => "eithtrycall" | .eithToException => "eithtoexc"
+  | .eithErrorFromOptional => "eitherrfromopt" | .eithSequenceError => "eithseqerr" | .eithLoop => "eithloop" | .varCtor => "varctor"
 
 end Fcppt.C05
